@@ -474,25 +474,51 @@ impl fmt::Display for ParseTimestampError {
 impl std::error::Error for ParseTimestampError {}
 
 fn parse_rfc3339(fmt: &str) -> Result<Timestamp, ParseTimestampError> {
-    if fmt.len() > 30 || fmt.len() < 19 {
+    // Parse a fixed-width run of ASCII digits
+    fn digits(fmt: &[u8]) -> Result<u32, ParseTimestampError> {
+        if fmt.is_empty() {
+            return Err(ParseTimestampError {});
+        }
+
+        fmt.iter().try_fold(0u32, |acc, b| match b {
+            b'0'..=b'9' => Ok(acc * 10 + u32::from(b - b'0')),
+            _ => Err(ParseTimestampError {}),
+        })
+    }
+
+    // Work on bytes so non-ASCII input can't split a char boundary
+    let fmt = fmt.as_bytes();
+
+    // The shortest valid input is `0000-00-00T00:00:00Z`
+    if fmt.len() > 30 || fmt.len() < 20 {
         // Invalid length
         return Err(ParseTimestampError {});
     }
 
-    if *fmt.as_bytes().last().unwrap() != b'Z' {
+    if fmt[fmt.len() - 1] != b'Z' {
         // Non-UTC
         return Err(ParseTimestampError {});
     }
 
-    let years = u16::from_str_radix(&fmt[0..4], 10).map_err(|_| ParseTimestampError {})?;
-    let months = u8::from_str_radix(&fmt[5..7], 10).map_err(|_| ParseTimestampError {})?;
-    let days = u8::from_str_radix(&fmt[8..10], 10).map_err(|_| ParseTimestampError {})?;
-    let hours = u8::from_str_radix(&fmt[11..13], 10).map_err(|_| ParseTimestampError {})?;
-    let minutes = u8::from_str_radix(&fmt[14..16], 10).map_err(|_| ParseTimestampError {})?;
-    let seconds = u8::from_str_radix(&fmt[17..19], 10).map_err(|_| ParseTimestampError {})?;
-    let nanos = if fmt.len() > 19 {
+    if fmt[4] != b'-' || fmt[7] != b'-' || fmt[10] != b'T' || fmt[13] != b':' || fmt[16] != b':' {
+        // Invalid separators
+        return Err(ParseTimestampError {});
+    }
+
+    let years = digits(&fmt[0..4])? as u16;
+    let months = digits(&fmt[5..7])? as u8;
+    let days = digits(&fmt[8..10])? as u8;
+    let hours = digits(&fmt[11..13])? as u8;
+    let minutes = digits(&fmt[14..16])? as u8;
+    let seconds = digits(&fmt[17..19])? as u8;
+    let nanos = if fmt.len() > 20 {
+        if fmt[19] != b'.' {
+            // Invalid separators
+            return Err(ParseTimestampError {});
+        }
+
         let subsecond = &fmt[20..fmt.len() - 1];
-        u32::from_str_radix(subsecond, 10).unwrap() * 10u32.pow(9 - subsecond.len() as u32)
+        digits(subsecond)? * 10u32.pow(9 - subsecond.len() as u32)
     } else {
         0
     };
